@@ -44,7 +44,7 @@ def norm2(x):
 def arrays_for_norm(draw):
     allket = draw(st.integers(0, 2)) == 0
     spec = draw(gen.array_specs(ferm=True, min_ndim=1, max_ndim=4,
-                                allow_empty=False))
+                                allow_empty=False, dtype="any"))
     if allket:
         for ix in spec["idxs"]:
             ix["dual"] = False
